@@ -32,7 +32,7 @@ RULE = (
 STATE_MEASURE = "(record kind, field-shape classes: sign/zero of drag terms, exponent, designator presence, digits of element / revolution numbers, catalogue fault kind)"
 PROBES = [
     "grid_entry_bytes_equal", "free_entry_parsed_back", "digit_flips_rejected", "truncations_rejected", "line_number_subs_rejected", "catalogue_fault_checked",
-    "catalogue_warn_logged", "orbit_called_twice_with_mutation", "epoch_last_ms_before_midnight", "four_digit_element_number", "five_digit_revolutions",
+    "catalogue_warn_logged", "orbit_called_twice_with_mutation", "failed_frame_change_before_writing_back", "epoch_last_ms_before_midnight", "four_digit_element_number", "five_digit_revolutions",
     "negative_ndot", "negative_bstar", "zero_drag_terms", "empty_designator", "three_line_form", "damaged_entry_followed_by_valid",
 ]
 REAL_VS_STUB = "real: beyond.io.tle (Tle, from_orbit, from_string, orbit), Orbit/forms/Date; stub: none (the stored text is held by the simulated disk and corrupted there); model: independent fixed-column formatter / checksum / field reader"
@@ -165,8 +165,10 @@ def gen_record(rng, kind):
         # arbitrary values, not on the printed grid; epoch with arbitrary microseconds, sometimes in the last millisecond of the day
         rec["free"] = {
             "i": rng.uniform(0, 180), "raan": rng.uniform(0, 360), "e": rng.uniform(0, 0.9999999), "argp": rng.uniform(0, 360), "M": rng.uniform(0, 360),
-            "n": rng.uniform(0.01, 16.99), "ndot": rng.uniform(-1e-3, 1e-3) * 2, "bstar": rng.uniform(-1e-3, 1e-3) * rng.choice([1, 1e-3, 1e-6]),
-            "ndotdot": rng.choice([0.0, rng.uniform(-1e-5, 1e-5)]),
+            "n": rng.uniform(0.01, 16.99), "ndot": rng.uniform(-1e-3, 1e-3) * 2,
+            # drag terms: arbitrary, or with a mantissa that rounds up to 1.00000 at five digits (carry into the exponent)
+            "bstar": rng.choice([rng.uniform(-1e-3, 1e-3) * rng.choice([1, 1e-3, 1e-6]), rng.choice([1, -1]) * rng.uniform(9.99995, 9.9999999) * 10 ** rng.randint(-9, -2)]),
+            "ndotdot": rng.choice([0.0, rng.uniform(-1e-5, 1e-5), 6 * rng.uniform(9.99995, 9.9999999) * 10 ** rng.randint(-9, -3)]),
             "sod_us": rng.choice([rng.randrange(86400000000), 86400000000 - rng.randint(1, 432), 86400000000 - rng.randint(1, 1000), rng.randrange(86400000000)]),
         }
     return rec
@@ -412,6 +414,11 @@ def check_entry(ctx, R, TleR, e, t, k):
     o1.revolutions = 1
     o2 = t.orbit()
     ctx.probe("orbit_called_twice_with_mutation")
+    # ... and a frame change of the orbit that fails (the Hill frame cannot be converted to) leaves it as parsed
+    try:
+        o2.frame = "Hill"
+    except Exception:  # noqa
+        ctx.probe("failed_frame_change_before_writing_back")
     back = TleR.from_orbit(o2)
     txt = str(back).splitlines()
     ctx.checks += 1
